@@ -190,7 +190,8 @@ def run(R):
         ok = False
         for h, body, tails in natural_loops(fn):
             c = comparison_of((fn.term(h) or {}).get("cond"), True, lambda x: isinstance(strip_casts(x), dict) and strip_casts(x).get("k") == "var")
-            if c and c[0] == "<" and isinstance(strip_casts(c[1]), dict) and strip_casts(c[1]).get("vid") == size_vid:
+            bound = strip_casts(fn.expand_expr(c[1], use_block=h)) if c else None
+            if c and c[0] in ("<", "!=") and isinstance(bound, dict) and bound.get("vid") == size_vid:
                 if any(p.b in body and e.get("k") == "call" and e.get("name") == "enqueue" for p, e in fn.events()) and any(p.b in body and nd.get("k") == "new" for p, nd in fn.all_nodes()):
                     ok = True
         R.ob("C25.pool-lifetime", fn, fn.loc, ok, "constructs and enqueues exactly 'size' objects" if ok else "constructor does not create 'size' resources", sitekey="ctor", why="the pool holds exactly size resources")
@@ -199,7 +200,8 @@ def run(R):
         ok = False
         for h, body, tails in natural_loops(fn):
             c = comparison_of((fn.term(h) or {}).get("cond"), True, lambda x: isinstance(strip_casts(x), dict) and strip_casts(x).get("k") == "var")
-            if c and c[0] == "<" and isinstance(strip_casts(c[1]), dict) and strip_casts(c[1]).get("fname") == "size_":
+            bound = strip_casts(fn.expand_expr(c[1], use_block=h)) if c else None
+            if c and c[0] in ("<", "!=") and isinstance(bound, dict) and bound.get("fname") == "size_":
                 inbody = [e for p, e in fn.events() if p.b in body]
                 if any(e.get("k") == "call" and e.get("name") == "wait_dequeue" for e in inbody) and any((e.get("k") == "call" and e.get("dtorcall")) or e.get("k") == "pseudodtor" or (e.get("k") == "call" and e.get("callee") is None) for e in inbody):
                     ok = True
